@@ -258,10 +258,12 @@ class Ctx:
             "wall_s": round(time.time() - self.t0, 3),
             "violations": int(n_viol),
         }
-        EVIDENCE_DIR.mkdir(parents=True, exist_ok=True)
-        tmp = EVIDENCE_DIR / f".{self.prop}.json.tmp"
+        # partial (--only) debugging runs never overwrite the evidence of a complete run
+        edir = EVIDENCE_DIR / "partial" if self.only else EVIDENCE_DIR
+        edir.mkdir(parents=True, exist_ok=True)
+        tmp = edir / f".{self.prop}.json.tmp"
         tmp.write_text(json.dumps(ev, indent=1, sort_keys=False) + "\n")
-        tmp.replace(EVIDENCE_DIR / f"{self.prop}.json")
+        tmp.replace(edir / f"{self.prop}.json")
 
 
 def write_replay(prop: str, v: Violation) -> Path:
